@@ -280,7 +280,7 @@ pub fn run(args: &Args) {
     }
     // (c) PRNG op sequences: changes after validation (poke / chown / close / next) and re-validation on access
     let mut rng = Rng::new(args.seed);
-    let n = if args.thorough() { 40_000 } else { 4_000 };
+    let n = if args.thorough() { 200_000 } else { 20_000 };
     for _ in 0..n {
         let ti = rng.below(ntypes as u64) as usize;
         let (kind, pid, disc) = {
